@@ -393,11 +393,11 @@ static void run_elias_extreme(void) {
     for (int z = 0; z <= 70; z++) {
         for (int fi = 0; fi < 5; fi++) {
             for (int pi = 0; pi < 5; pi++) {
-                for (int pre = 0; pre < 3; pre++) {
+                for (int pre = 0; pre < 5; pre++) {
                     if (!vh_case()) {
                         continue;
                     }
-                    uint8_t s[64];
+                    uint8_t s[128];
                     memset(s, 0, sizeof s);
                     size_t pos = 0;
 #define PUTBIT(b)                                                                                                  \
@@ -407,10 +407,29 @@ static void run_elias_extreme(void) {
         }                                                                                                          \
         pos++;                                                                                                     \
     } while (0)
-                    /* valid codes first: gamma(1)="1", gamma(3)="011", gamma(1), gamma(2)="010", gamma(5)="00101" */
+                    /* valid codes first: gamma(1)="1", gamma(3)="011", gamma(1), gamma(2)="010", gamma(5)="00101"; or
+                     * three / seven maximal delta codes (2^64-1: 76 bits each: a decoder that batches codes and
+                     * budgets 76 bits per code meets the hostile one as the last of a batch) */
                     static const char *PRE[3] = {"", "1011", "1011101000101"};
-                    for (const char *q = PRE[pre]; *q; q++) {
-                        PUTBIT(*q == '1');
+                    if (pre < 3) {
+                        for (const char *q = PRE[pre]; *q; q++) {
+                            PUTBIT(*q == '1');
+                        }
+                    } else {
+                        int ncodes = pre == 3 ? 3 : 7;
+                        for (int cI = 0; cI < ncodes; cI++) {
+                            /* delta(2^64-1) = gamma(64) = 000000 1000000, then the 63 low bits (all ones) */
+                            for (int k = 0; k < 6; k++) {
+                                PUTBIT(0);
+                            }
+                            PUTBIT(1);
+                            for (int k = 0; k < 6; k++) {
+                                PUTBIT(0);
+                            }
+                            for (int k = 0; k < 63; k++) {
+                                PUTBIT(1);
+                            }
+                        }
                     }
                     for (int k = 0; k < z; k++) {
                         PUTBIT(0);
@@ -430,7 +449,7 @@ static void run_elias_extreme(void) {
                     if (len > sizeof s) {
                         len = sizeof s;
                     }
-                    snprintf(cur_desc, sizeof cur_desc, "elias extreme code: %s then %d zeros, a one, %d payload bits (fill class %d): input[%zu]=%s", pre ? "valid codes" : "nothing", z, P, fi, len, vh_hex(s, len));
+                    snprintf(cur_desc, sizeof cur_desc, "elias extreme code: %s then %d zeros, a one, %d payload bits (fill class %d): input[%zu]=%s", pre >= 3 ? "maximal delta codes" : pre ? "valid codes" : "nothing", z, P, fi, len, vh_hex(s, len));
                     probe_elias(s, len);
                     if (fi == 0 && pi == 0 && pre == 0) {
                         char ck[40];
